@@ -357,6 +357,141 @@ def read_default_and_lookup():
     raise Untranslatable("distance_fn assignment not found")
 
 
+
+# ---------------------------------------------------------------- effects (stores and their roots)
+MUTATORS = {"append", "insert", "fill", "sort", "update", "extend", "pop", "remove", "clear", "put",
+            "resize", "setflags", "itemset", "setdefault", "popitem", "reverse", "partition", "byteswap"}
+
+
+def base_name(e):
+    while isinstance(e, (ast.Subscript, ast.Attribute, ast.Call, ast.Starred)):
+        e = e.func if isinstance(e, ast.Call) else e.value
+    return e.id if isinstance(e, ast.Name) else None
+
+
+def collect_effects():
+    """every statement of every function under opfython/ that writes through an object:
+    (qualified function, root kind, target text, line); root kind in
+    param / alias (a local bound to a view of a parameter) / self / local / global."""
+    rows = []
+    n_global = 0
+    root = os.path.join(REPO, "opfython")
+    for dirpath, _, files in sorted(os.walk(root)):
+        for fn in sorted(files):
+            if not fn.endswith(".py"):
+                continue
+            path = os.path.join(dirpath, fn)
+            rel = os.path.relpath(path, REPO)
+            tree = ast.parse(open(path).read())
+
+            def visit_func(f, qual):
+                nonlocal n_global
+                # parameters annotated with an immutable scalar type cannot be written through
+                params = {a.arg for a in f.args.args + f.args.kwonlyargs if a.arg not in ("self", "cls")
+                          and not (a.annotation is not None and ast.unparse(a.annotation) in ("int", "float", "str", "bool"))}
+                if f.args.vararg:
+                    params.add(f.args.vararg.arg)
+                aliases = {}
+                fresh = set()
+
+                def kind(name):
+                    if name in ("self", "cls"):
+                        return "self"
+                    if name in params and name not in fresh:
+                        return "param"
+                    if name in aliases:
+                        return "alias"
+                    return "local"
+
+                def record(target_expr, node, what):
+                    b = base_name(target_expr)
+                    if b is None:
+                        return
+                    rows.append((f"{rel}:{qual}", kind(b), what[:60].replace('"', "'"), node.lineno))
+
+                def walk(stmts):
+                    nonlocal n_global
+                    for st in stmts:
+                        if isinstance(st, (ast.FunctionDef, ast.AsyncFunctionDef)):
+                            visit_func(st, qual + "." + st.name)
+                            continue
+                        if isinstance(st, ast.ClassDef):
+                            continue
+                        if isinstance(st, ast.Global):
+                            n_global += len(st.names)
+                        if isinstance(st, (ast.Assign, ast.AnnAssign, ast.AugAssign)):
+                            targets = st.targets if isinstance(st, ast.Assign) else [st.target]
+                            flat = []
+                            for t in targets:
+                                flat += list(t.elts) if isinstance(t, (ast.Tuple, ast.List)) else [t]
+                            for t in flat:
+                                if isinstance(t, (ast.Subscript, ast.Attribute)):
+                                    record(t, st, ast.unparse(t))
+                                elif isinstance(t, ast.Name):
+                                    if isinstance(st, ast.AugAssign):
+                                        # `p += e` on an ndarray parameter is an in-place write
+                                        if kind(t.id) in ("param", "alias"):
+                                            rows.append((f"{rel}:{qual}", kind(t.id), ast.unparse(st)[:60], st.lineno))
+                                    else:
+                                        val = st.value
+                                        b = base_name(val) if isinstance(val, (ast.Subscript, ast.Attribute, ast.Name)) else None
+                                        if b is not None and kind(b) in ("param", "alias") and not isinstance(val, ast.Call):
+                                            aliases[t.id] = b
+                                            fresh.discard(t.id)
+                                        else:
+                                            aliases.pop(t.id, None)
+                                            if t.id in params:
+                                                fresh.add(t.id)   # parameter name rebound to a fresh value
+                        for node in ast.walk(st) if not isinstance(st, (ast.FunctionDef, ast.For, ast.While, ast.If, ast.With, ast.Try)) else []:
+                            if isinstance(node, ast.Call) and isinstance(node.func, ast.Attribute) and node.func.attr in MUTATORS:
+                                record(node.func.value, node, ast.unparse(node.func))
+                        for attr in ("body", "orelse", "finalbody"):
+                            sub = getattr(st, attr, None)
+                            if isinstance(sub, list) and not isinstance(st, (ast.FunctionDef, ast.ClassDef)):
+                                if isinstance(st, (ast.For, ast.While, ast.If, ast.With, ast.Try)):
+                                    # calls in the header expressions
+                                    hdr = [getattr(st, a, None) for a in ("test", "iter")]
+                                    for h in hdr:
+                                        if h is not None:
+                                            for node in ast.walk(h):
+                                                if isinstance(node, ast.Call) and isinstance(node.func, ast.Attribute) and node.func.attr in MUTATORS:
+                                                    record(node.func.value, node, ast.unparse(node.func))
+                                walk(sub)
+                        if isinstance(st, ast.Try):
+                            for h in st.handlers:
+                                walk(h.body)
+                walk(f.body)
+
+            for node in tree.body:
+                if isinstance(node, ast.FunctionDef):
+                    visit_func(node, node.name)
+                elif isinstance(node, ast.ClassDef):
+                    for sub in node.body:
+                        if isinstance(sub, ast.FunctionDef):
+                            visit_func(sub, node.name + "." + sub.name)
+    return rows, n_global
+
+
+def fingerprints():
+    """sha256 of the normalised AST (docstrings and logger calls dropped) of every function."""
+    out = []
+    root = os.path.join(REPO, "opfython")
+    for dirpath, _, files in sorted(os.walk(root)):
+        for fn in sorted(files):
+            if not fn.endswith(".py"):
+                continue
+            path = os.path.join(dirpath, fn)
+            rel = os.path.relpath(path, REPO)
+            tree = ast.parse(open(path).read())
+            for node in ast.walk(tree):
+                if isinstance(node, ast.FunctionDef):
+                    body = [b for b in node.body if not (isinstance(b, ast.Expr) and isinstance(b.value, ast.Constant))]
+                    body = [b for b in body if not (isinstance(b, ast.Expr) and ast.unparse(b).startswith("logger."))]
+                    h = hashlib.sha256(("\n".join(ast.dump(b) for b in body)).encode()).hexdigest()[:16]
+                    out.append((f"{rel}:{node.name}:{node.lineno}", h))
+    return out
+
+
 def write(path, text):
     os.makedirs(os.path.dirname(path), exist_ok=True)
     if os.path.exists(path) and open(path).read() == text:
@@ -427,6 +562,24 @@ def main():
            f"def decoratorParams : Nat := {len(params)}",
            f"def decoratorEps : Int × Int := ({L(eps[0])}, {L(eps[1])})", "", "end Opf.Gen"]
     write(os.path.join(GEN, "Decorator.lean"), "\n".join(dec) + "\n")
+
+    rows, n_global = collect_effects()
+    eff = ["/- GENERATED by tools/translate.py from every function under /repo/opfython — do not edit. -/",
+           "namespace Opf.Gen", "",
+           "/-- every statement that writes through an object: (file:function, root kind, target, line).",
+           "root kind: param = a parameter of the function (the caller's object), alias = a local bound to a",
+           "view of a parameter, self = the receiver, local = an object created inside the function. -/",
+           "def stores : List (String × String × String × Nat) := ["]
+    eff.append(",\n".join(f'  ("{a}", "{b}", "{c}", {d})' for a, b, c, d in rows))
+    eff += ["]", "", f"/-- number of names declared `global` inside functions -/", f"def globalDecls : Nat := {n_global}", "", "end Opf.Gen"]
+    write(os.path.join(GEN, "Effects.lean"), "\n".join(eff) + "\n")
+
+    fps = fingerprints()
+    fp = ["/- GENERATED by tools/translate.py — normalised-AST hashes of every function (informational). -/",
+          "namespace Opf.Gen", "", "def fingerprints : List (String × String) := ["]
+    fp.append(",\n".join(f'  ("{a}", "{b}")' for a, b in fps))
+    fp += ["]", "", "end Opf.Gen"]
+    write(os.path.join(GEN, "Fingerprint.lean"), "\n".join(fp) + "\n")
     return 0
 
 
